@@ -23,7 +23,9 @@ import (
 const SB = "/SBX7"
 
 type sandbox struct {
-	top     string // real path of the sandbox top (clean, symlink free)
+	scope string // real directory the oracle watches: the case directory, several levels above top, so that
+	// even a climb of depth+3 parent references from the root stays inside the observed (and disposable) area
+	top     string // real path of the sandbox top (clean, symlink free); "/SBX7" in op lines and outputs
 	rootRel string // root relative to top, e.g. "w/a/root"
 	root    string // real path of the root
 	snap    map[string]string
@@ -38,6 +40,9 @@ func (s *sandbox) virt(p string) string {
 	}
 	if strings.HasPrefix(p, s.top+"/") {
 		return SB + p[len(s.top):]
+	}
+	if strings.HasPrefix(p, s.scope+"/") {
+		return "<above-sandbox>" + p[len(s.scope):]
 	}
 	return p
 }
@@ -61,8 +66,8 @@ func must(err error) {
 // build creates the furniture around the root: a note in every ancestor, siblings that extend the
 // root's name, an unrelated sibling, a file at the top.  plant(dir, kind) lets the component put a
 // well-formed decoy (a record / a resource file) into the sibling directories.
-func newSandbox(top, rootRel string, decoy func(dir string)) *sandbox {
-	s := &sandbox{top: top, rootRel: rootRel, root: filepath.Join(top, rootRel), inoFd: -1}
+func newSandbox(scope, top, rootRel string, decoy func(dir string)) *sandbox {
+	s := &sandbox{scope: scope, top: top, rootRel: rootRel, root: filepath.Join(top, rootRel), inoFd: -1}
 	must(os.MkdirAll(filepath.Dir(s.root), 0o755))
 	must(os.WriteFile(filepath.Join(top, "top.txt"), []byte("OUTSIDE top\n"), 0o644))
 	dir := top
@@ -93,7 +98,7 @@ func (s *sandbox) underRoot(p string) bool {
 // snapshot of everything outside the root.
 func (s *sandbox) snapshot() map[string]string {
 	m := map[string]string{}
-	_ = filepath.Walk(s.top, func(p string, info os.FileInfo, err error) error {
+	_ = filepath.Walk(s.scope, func(p string, info os.FileInfo, err error) error {
 		if err != nil {
 			m[s.virt(p)] = "error:" + err.Error()
 			return nil
@@ -150,7 +155,7 @@ func (s *sandbox) watch() {
 		return
 	}
 	s.inoFd, s.wds, s.inoOK = fd, map[int32]string{}, true
-	_ = filepath.Walk(s.top, func(p string, info os.FileInfo, err error) error {
+	_ = filepath.Walk(s.scope, func(p string, info os.FileInfo, err error) error {
 		if err != nil || !info.IsDir() {
 			return nil
 		}
